@@ -129,6 +129,9 @@ pub fn bias_cfg(prop: &str, cfg: &mut Cfg, rng: &mut Rng) {
             if rng.chance(1, 2) {
                 cfg.set("recvbias", 2);
             }
+            if rng.chance(1, 3) {
+                cfg.set("prompt", 1);
+            }
         }
         "C03" => {
             let k = rng.below(3);
